@@ -112,13 +112,22 @@ fn case_typed<F: Family>(input: &Input, ctx: &mut Ctx) -> CaseResult {
     conform::<F>(&p, ctx)
 }
 
+fn case_sized<F: Family>(input: &Input, ctx: &mut Ctx) -> CaseResult {
+    match crate::sized::from_input::<F>(input, ctx) {
+        Some(p) => conform::<F>(&p, ctx),
+        None => Ok(()),
+    }
+}
+
+pub const SUB_S3: Sub = Sub { name: "c10.sized.v3", f: case_sized::<V3> };
+pub const SUB_S5: Sub = Sub { name: "c10.sized.v5", f: case_sized::<V5> };
 pub const SUB_V3: Sub = Sub { name: "c10.conform.v3", f: case::<V3> };
 pub const SUB_V5: Sub = Sub { name: "c10.conform.v5", f: case::<V5> };
 pub const SUB_T3: Sub = Sub { name: "c10.typed.v3", f: case_typed::<V3> };
 pub const SUB_T5: Sub = Sub { name: "c10.typed.v5", f: case_typed::<V5> };
 
 pub fn subs() -> Vec<Sub> {
-    vec![SUB_V3, SUB_V5, SUB_T3, SUB_T5]
+    vec![SUB_V3, SUB_V5, SUB_T3, SUB_T5, SUB_S3, SUB_S5]
 }
 
 pub fn run(env: &mut Env) -> RunResult {
@@ -127,6 +136,13 @@ pub fn run(env: &mut Env) -> RunResult {
     env.run_tapes(SUB_V5, n * 2, 200)?;
     env.run_tapes(SUB_T3, n, 96)?;
     env.run_tapes(SUB_T5, n * 2, 200)?;
+    let s3 = crate::sized::inputs(model::Fam::V3, env.thorough());
+    let n3 = s3.len() as u64;
+    env.run_enum(SUB_S3, n3, false, move |i| s3[i as usize].clone())?;
+    let s5 = crate::sized::inputs(model::Fam::V5, env.thorough());
+    let n5 = s5.len() as u64;
+    env.run_enum(SUB_S5, n5, false, move |i| s5[i as usize].clone())?;
+    env.require("c10.sized.v5", "sized:2MiB-boundary");
     // every enum variant that is written as a wire number must have been exercised
     for t in [model::T_CONNACK, model::T_PUBACK, model::T_PUBREC, model::T_PUBREL, model::T_PUBCOMP, model::T_SUBACK, model::T_UNSUBACK, model::T_DISCONNECT, model::T_AUTH] {
         for c in model::reason_codes(t) {
